@@ -333,15 +333,19 @@ def stage_make_recipe_names(rep, rng, names):
             continue
         o = StringIO(); mk.write(o)
         goal = None
-        if '%' in n:
-            # GNU Make never takes a target containing % as the default goal ('No targets'), however it is written: such a
-            # name is requested as a goal on the command line (possible unless the word would be read as an option or as
-            # a variable assignment there)
+        if '%' in n or n.startswith('.'):
+            # GNU Make never takes a target containing % or starting with a dot as the default goal ('No targets'), however
+            # it is written: such a name is requested as a goal on the command line (possible unless the word would be read
+            # as an option or as a variable assignment there)
             if n.startswith('-') or '=' in n:
-                rep.count('recipe:percent name that cannot be requested as a goal')
+                rep.count('recipe:name that can neither be the default goal nor be requested as a goal')
                 continue
             goal = n
         rc, recs, out = shtools.make_run(o.getvalue(), goal)
+        if goal is not None and rc != 0 and 'No rule to make target' in out and esc_brackets(n) != n:
+            # make-bracket-escaped: the rule is for the name WITH the backslashes; ask for that one (what the recipe then
+            # receives is judged below as for every other name)
+            rc, recs, out = shtools.make_run(o.getvalue(), esc_brackets(n))
         got = recs[0]['argv'] if rc == 0 and len(recs) == 1 else None
         # only names Make can represent as a target at all are in scope
         if not reference_ok(n)[0]:
